@@ -29,7 +29,38 @@ let table : (string * schema) list = [
   "BootstrapWitnesses", bootstrapWitnesses; "TransactionWitnessSet", transactionWitnessSet depth;
   "Transaction", transaction depth; "VRFCert", vRFCert; "OperationalCert", operationalCert;
   "HeaderBody", headerBody; "Header", header; "HeaderBodyPraos", headerBodyPraos; "HeaderPraos", headerPraos;
-  "Block", block depth; "Int", intS ]
+  "Block", block depth; "Int", intS;
+  (* stand-alone members of the variant types and further public types *)
+  "BlockPraos", blockPraos depth; "StakeRegistration", stakeRegistration; "StakeDeregistration", stakeDeregistration;
+  "StakeDelegation", stakeDelegation; "PoolParams", poolParams; "PoolRegistration", poolRegistration;
+  "PoolRetirement", poolRetirement; "GenesisKeyDelegation", genesisKeyDelegation;
+  "MoveInstantaneousRewardsCert", moveInstantaneousRewardsCert; "VoteDelegation", voteDelegation;
+  "StakeAndVoteDelegation", stakeAndVoteDelegation; "StakeRegistrationAndDelegation", stakeRegistrationAndDelegation;
+  "VoteRegistrationAndDelegation", voteRegistrationAndDelegation;
+  "StakeVoteRegistrationAndDelegation", stakeVoteRegistrationAndDelegation; "CommitteeHotAuth", committeeHotAuth;
+  "CommitteeColdResign", committeeColdResign; "DRepRegistration", dRepRegistration; "DRepDeregistration", dRepDeregistration;
+  "DRepUpdate", dRepUpdate; "SingleHostAddr", singleHostAddr; "SingleHostName", singleHostName; "MultiHostName", multiHostName;
+  "Ipv4", ipv4; "Ipv6", ipv6; "URL", uRL; "DNSRecordAorAAAA", dNSName; "DNSRecordSRV", dNSName; "Committee", committee;
+  "ParameterChangeAction", parameterChangeAction; "HardForkInitiationAction", hardForkInitiationAction;
+  "TreasuryWithdrawalsAction", treasuryWithdrawalsAction; "NoConfidenceAction", noConfidenceAction;
+  "UpdateCommitteeAction", updateCommitteeAction; "NewConstitutionAction", newConstitutionAction;
+  "MetadataList", metadataList depth; "MetadataMap", metadataMap depth;
+  "ConstrPlutusData", constrPlutusData depth; "BigInt", bigInt; "Redeemer", redeemer depth; "RedeemerTag", redeemerTag;
+  "Language", language; "CostModel", costModel; "NetworkId", networkId; "Vkey", vkey; "AssetName", assetNameS;
+  "PlutusScript", plutusScriptBytes; "MIRToStakeCredentials", mIRToStakeCredentials;
+  "TransactionBodies", transactionBodies depth; "TransactionWitnessSets", transactionWitnessSets depth;
+  "TransactionUnspentOutput", transactionUnspentOutput depth;
+  "ScriptPubkey", scriptPubkey; "ScriptAll", scriptAll (nat_of_int 2); "ScriptAny", scriptAny (nat_of_int 2);
+  "ScriptNOfK", scriptNOfK (nat_of_int 2); "TimelockStart", timelockStart; "TimelockExpiry", timelockExpiry;
+  "AssetNames", assetNames; "GenesisHashes", genesisHashes; "ScriptHashes", scriptHashes; "RewardAddresses", rewardAddresses;
+  "TransactionMetadatumLabels", transactionMetadatumLabels; "BigNum", bigNum; "VersionedBlock", versionedBlock depth ]
+
+(* stream (ii) types: the schema of the form the API builds (e.g. header bodies are always built in the Praos form) *)
+let api_table : (string * schema) list = [
+  "HeaderBody", headerBodyPraos; "Header", headerPraos; "Block", blockPraos depth; "ValueEmptyAssets", value;
+  (* stream (ii) only: Rust identifies keys that are equal as data but written differently (definite / indefinite
+     list, original bytes), so model-generated maps with such keys are outside the writer image *)
+  "PlutusMap", plutusMap depth ] @ table
 
 (* ---------- PRNG (SplitMix64) ---------- *)
 let st = ref 0L
@@ -109,14 +140,24 @@ let rec gen (s : schema) (size : int) : val0 =
           end) (klist_to_list fs))
   | SVar alts -> let l = vlist_to_list alts in let i = below (List.length l) in
     let (_, fs) = List.nth l i in VVar (nat_of_int i, List.map (fun f -> gen f (size - 1)) (slist_to_list fs))
-  | SArrOf (lo, s') -> let n = coll_len (int_of_n lo) size in VList (List.init n (fun _ -> gen s' (size - 2)))
+  | SArrOf (lo, s') ->
+    (* long arrays of whole transaction bodies / witness sets only cost time (the 24/25 boundary of the array head is
+       exercised on every lighter element type) *)
+    let heavy = (match s' with SMap fs -> List.length (klist_to_list fs) > 6 | _ -> false) in
+    let n = coll_len (int_of_n lo) size in
+    let n = if heavy then min n 3 else n in
+    VList (List.init n (fun _ -> gen s' (size - 2)))
   | SSetOf s' -> let n = coll_len 0 size in VList (dedup s' (List.init n (fun _ -> gen s' (size - 2))))
   | SMapOf (lo, ord, k, v) ->
     let n = coll_len (int_of_n lo) size in
     let l = List.init n (fun _ -> (gen k (size - 2), gen v (size - 2))) in
+    (* a Vec-backed map may repeat a key *)
+    (* (repeated keys adjacent: that is how every writer emits them, PlutusMap groups the values of a key) *)
     let l = dedup_keys k l in
+    let l = if ord = KMulti && below 3 = 0 then (match l with (a, b) :: r -> (a, b) :: (a, gen v (size - 2)) :: r | [] -> []) else l in
     let l = match ord with
       | KInsertion -> l
+      | KMulti -> l
       | KBytewise -> List.sort (fun (a, _) (b, _) -> cmp_bytes (enc k a) (enc k b)) l
       | KRewardAddr -> List.sort (fun (a, _) (b, _) -> cmp_bytes (reward_sort_key (enc k a)) (reward_sort_key (enc k b))) l in
     VMap l
@@ -134,13 +175,23 @@ let rec gen (s : schema) (size : int) : val0 =
     let id = int_of_n id in
     if id = 1 then VBytes (gen_address ())
     else if id = 2 then VBytes (gen_reward_address ())
+    else if id = 6 then VBytes (n_of_int (1 + below 255) :: gen_bytes (match below 4 with 0 -> 8 | 1 -> 63 | 2 -> 64 + below 3 | _ -> 8 + below 120))
+    else if id = 7 then (match gen s' size with
+        | VList (_ :: rest) -> VList (VNat (n_of_bz (if below 3 = 0 then BZ.of_int 128 else BZ.add (BZ.of_int 128) (BZ.shift_right (bz_u64 ()) (1 + below 63)))) :: rest)
+        | v -> v)
     else begin
       (* rejection sampling into the writer image (Coq predicate writer_form) *)
       let v = ref (gen s' size) in
       let tries = ref 0 in
-      while not (writer_form (n_of_int id) !v) && !tries < 50 do v := gen s' (max size 1); incr tries done;
-      !v
+      while not (writer_form (n_of_int id) !v) && !tries < 50 do v := gen s' (max size 2 + !tries / 10); incr tries done;
+      (* a multi-asset value is only written when some policy has an asset: make one if sampling found none *)
+      if id = 5 && not (writer_form (n_of_int id) !v) then
+        VList [VNat (n_of_bz (gen_uint 64)); VMap [(VBytes (gen_bytes 28), VMap [(VBytes (gen_bytes (below 33)), VNat (n_of_bz (gen_uint 64)))])]]
+      else !v
     end
+  | SArrOpt (fs, o) ->
+    let l = List.map (fun f -> gen f (size - 1)) (slist_to_list fs) in
+    if below 2 = 0 then VAlt (nat_of_int 0, VList l) else VAlt (nat_of_int 1, VList (gen o (size - 1) :: l))
   | SBBytes -> let len = (match below 8 with 0 -> 0 | 1 -> 1 | 2 -> 63 | 3 -> 64 | 4 -> 65 | 5 -> 128 | 6 -> 129 + below 100 | _ -> below 64) in
     VBytes (gen_bytes len)
 and dedup s' l =
@@ -154,7 +205,7 @@ let gen_mode seed tier out =
   st := Int64.of_string seed;
   ignore (next ());
   let oc = open_out out in
-  let per = if tier = "thorough" then 400 else 40 in
+  let per = if tier = "thorough" then 1200 else 64 in
   List.iter (fun (name, s) ->
       (* wfs s = true is a theorem (ledger_schemas_wf, for every depth); it is not re-evaluated here: the
          unrolled PlutusData schema at depth 3 has 130^3 nodes as a tree *)
@@ -194,6 +245,35 @@ let run_mode () = run_driver (fun toks impl ->
         | Err -> ("err", "na")
         | Panic -> ("panic", "na")
         | OutOfFuel -> ("outoffuel", "na")))
+  | ["api"; name; _plan; _seed] ->
+    (* stream (ii): the implementation's own bytes b (built through the public API) are fed to the model:
+       dec s b must accept all of b, the decoded value must be in the domain of the round-trip theorem and
+       re-encode to b.  The verdict is the round-trip statement evaluated on the implementation's results. *)
+    (match List.assoc_opt name api_table with
+     | None -> ("skip unmodelled-type", "na")
+     | Some s ->
+       (* model side: api_model_accepts (Coq) = the bytes are a complete encoding of a value in the domain of the
+          round-trip theorem that re-encodes to exactly these bytes; verdict: api_holds (Coq) on the observations *)
+       let model_of b = (match api_model_accepts s b with
+         | Some re -> let h = hex_of_bytes re in "ok " ^ h ^ " " ^ h
+         | None -> (match dec s b with
+             | Ok (_, []) -> "model-outside-domain" | Ok (_, _) -> "model-trailing" | Err -> "model-err"
+             | Panic -> "model-panic" | OutOfFuel -> "model-outoffuel")) in
+       (match impl with
+        | "ok" :: hb :: hre :: flags ->
+          let b = bytes_of_hex hb in
+          let model = model_of b in
+          (* known finding C01-plutus-script-language: a stand-alone Plutus script loses its language *)
+          let lang = flags = ["selfcheck:eq-language"] && (name = "PlutusScript" || name = "PlutusScripts") in
+          let verdict = if api_holds b true (bytes_of_hex hre) (flags = []) then "holds"
+            else if lang && api_holds b true (bytes_of_hex hre) true then "fails:C01-plutus-script-language"
+            else "fails:-" in
+          ((if lang then model ^ " selfcheck:eq-language" else model), verdict)
+        | ["deerr"; hb] ->
+          let b = bytes_of_hex hb in
+          (model_of b, if api_holds b false [] true then "holds" else "fails:-")
+        | ["panic"] -> ("model-nobytes", "fails:-")
+        | _ -> ("driver-badimpl", "na")))
   | ["bad_schema"; name] -> ("bad_schema", "fails:model-schema-" ^ name)
   | ["gen_invalid"; name; _] -> ("gen_invalid", "na")
   | _ -> ("driver-badcase", "na"))
